@@ -110,6 +110,9 @@ type Case struct {
 	// "a worker has received a job and not yet looked at it", at its
 	// CancelAtGot-th occurrence (needs the verif build tag).
 	CancelAtGot int `json:"cancelatgot,omitempty"`
+	// CustomRoot: the root context is a hand-written context.Context that is
+	// still live after the run.
+	CustomRoot bool `json:"customroot,omitempty"`
 	// ShareDeps: jobs that list the same dependencies pass the very same
 	// Dependencies slice to Enqueue (only when one goroutine enqueues).
 	ShareDeps bool `json:"sharedeps,omitempty"`
@@ -381,6 +384,7 @@ func GenCase(t *rapid.T, p Profile) *Case {
 		}
 	}
 	c.ShareDeps = prob(t, "sharedeps", 0.3)
+	c.CustomRoot = prob(t, "customroot", 0.15)
 	if cancelCase && hooksEnabled && c.CtxMode == MNone && prob(t, "cancelatgot", 0.35) {
 		c.CancelAtGot = 1 + uniform(t, "cancelatgotn", nj)
 	}
@@ -650,6 +654,9 @@ func (c *Case) Labels() []string {
 	}
 	if c.CancelAtGot > 0 {
 		add("cancel:at-worker-got-job")
+	}
+	if c.CustomRoot {
+		add("ctx:hand-written-root-still-live-after-the-run")
 	}
 	if c.ShareDeps && c.ConcEnq <= 1 {
 		sharedSeen := map[string]bool{}
